@@ -805,12 +805,15 @@ def attribute_table(ctx):
                             f = h_
         if isr:
             def src_var(e):
-                for x in walk(e):
-                    if isinstance(x, tuple) and x[0] == 'var' and f.local_ty(x[1]) == 'std::option::Option<usize>':
-                        return x[1]
-                return None
-            roles = {'size': src_var(isr['size']), 'alignment': src_var(isr['alignment'])}
-            check('extern-type', ['C02', 'C01'], f, roles, {'size': {'size'}, 'align': {'alignment'}})
+                # the Option<usize> state variable behind the value, followed into the helper that reads the attributes
+                hf, hv = state_home(f, e)
+                for x in walk(expand(hf, hv)):
+                    if isinstance(x, tuple) and x[0] == 'var' and hf.local_ty(x[1]) == 'std::option::Option<usize>':
+                        return hf, x[1]
+                return hf, None
+            (h1, v1), (h2, v2) = src_var(isr['size']), src_var(isr['alignment'])
+            roles = {'size': v1, 'alignment': v2} if h1 is h2 else {'size': None, 'alignment': None}
+            check('extern-type', ['C02', 'C01'], h1, roles, {'size': {'size'}, 'align': {'alignment'}})
         else:
             ctx.fail_closed(['C02'], 'R-TABLE', 'attr-table|extern-type', 'extern type registration not found', loc(f.span))
 
